@@ -152,13 +152,13 @@ func main() {
 			}
 			// malformed framing of the request itself
 			for _, raw := range []string{
-				"GET http://" + env.Origin.Addr + "/ HTTP/1.1\r\n\r\n",                          // no Host
-				"GET http://" + env.Origin.Addr + "/ HTTP/1.1\r\nHost:\r\n\r\n",                 // empty Host
-				"GET http://" + env.Origin.Addr + "/ HTTP/1.0\r\n\r\n",                          // 1.0
-				"GET / HTTP/1.1\r\nHost: \r\n\r\n",                                              // nothing to go to
-				"GET http:///x HTTP/1.1\r\nHost: x\r\n\r\n",                                     // empty authority
-				"GET http://" + env.Origin.Addr + "/ HTTP/1.1\r\nHost: a\r\nHost: b\r\n\r\n",    // two Hosts
-				"GET http://[::1/ HTTP/1.1\r\nHost: x\r\n\r\n",                                  // bad authority
+				"GET http://" + env.Origin.Addr + "/ HTTP/1.1\r\n\r\n",                       // no Host
+				"GET http://" + env.Origin.Addr + "/ HTTP/1.1\r\nHost:\r\n\r\n",              // empty Host
+				"GET http://" + env.Origin.Addr + "/ HTTP/1.0\r\n\r\n",                       // 1.0
+				"GET / HTTP/1.1\r\nHost: \r\n\r\n",                                           // nothing to go to
+				"GET http:///x HTTP/1.1\r\nHost: x\r\n\r\n",                                  // empty authority
+				"GET http://" + env.Origin.Addr + "/ HTTP/1.1\r\nHost: a\r\nHost: b\r\n\r\n", // two Hosts
+				"GET http://[::1/ HTTP/1.1\r\nHost: x\r\n\r\n",                               // bad authority
 				"GET http://" + env.Origin.Addr + "/x HTTP/1.1\r\nHost: " + env.Origin.Addr + "\r\nRange: bytes=0-1\r\nRange: bytes=2-3\r\n\r\n",
 				"GARBAGE\r\n\r\n",
 				"GET http://" + env.Origin.Addr + "/ HTTP/9.9\r\nHost: x\r\n\r\n",
@@ -245,6 +245,24 @@ func main() {
 					env.Origin.SetHandler(func(req e2elib.OriginRequest, n int) e2elib.Answer { return e2elib.Answer{Raw: raw, AbortAfter: -1} })
 					rq := string(env.PlainRequest(m, "/status-"+code+"-"+m, nil, nil))
 					send(tcase{Stream: "origin-status", Desc: backend, Raw: rq, Origin: []string{"status line: HTTP/1.1 " + code + " Edge"}}, m)
+				}
+			}
+			// an origin that answers every request carrying a Range with 416 and every other one with a storable 200
+			// (a complete file the client tries to resume): all Range forms, cold and warm paths
+			env.Origin.SetHandler(func(req e2elib.OriginRequest, n int) e2elib.Answer {
+				if req.Header.Get("Range") != "" {
+					return e2elib.NewAnswer(416, []byte("nope"), "Content-Range: bytes */10")
+				}
+				lines := []string{"Cache-Control: max-age=60", `ETag: "r1"`}
+				if strings.Contains(req.Target, "nostore") {
+					lines[0] = "Cache-Control: no-store"
+				}
+				return e2elib.NewAnswer(200, []byte("0123456789"), lines...)
+			})
+			for i, rv := range append([]string{"bytes=10-", "bytes=50-60", "bytes=0-5", "bytes=-3", "bytes=9-9", "bytes=0-4,6-8", "bytes=abc", "bytes=-0"}, rangeVals...) {
+				for _, pth := range []string{fmt.Sprintf("/r416-%d", i), fmt.Sprintf("/r416-%d", i), fmt.Sprintf("/r416-nostore-%d", i)} {
+					raw := string(env.PlainRequest("GET", pth, []string{"Range: " + rv}, nil))
+					send(tcase{Stream: "origin-416-on-range", Desc: backend, Raw: raw, Origin: []string{"416 to every request with a Range, storable 200 otherwise"}, Status: 416}, "GET")
 				}
 			}
 			env.Close()
